@@ -754,6 +754,8 @@ def call(f, *args, **kw):
     recv = getattr(f, "__self__", None)
     if recv is not None and not isinstance(recv, types.ModuleType):
         name = getattr(f, "__name__", "")
+        if name == "__new__" and recv in (tuple, object, list, dict):
+            return f(*args, **kw)        # container construction does not inspect its elements
         if isinstance(recv, re.Pattern):
             if name in ("match", "fullmatch", "search") and _anysym(args, kw):
                 return regex_run(recv.pattern, recv.flags, args[0], name)
